@@ -192,6 +192,85 @@ theorem flags_as_modelled : LedgerFacts.flagReads = expectedFlagReads := by deci
 /-- Guard and debit name the same account expression at every EVM entry point, as the model transcribes them. -/
 theorem guard_checks_the_debited_account : LedgerFacts.guardArgs = expectedGuardArgs := by decide
 
+/-- The numeric conversions on the way into a balance slot / a stake, as `Model/Decimal.lean` (C18) composes them and
+    `Props/C06Real.lean` relates them to the exact primitives of `Model/Ledger.lean`:
+    `AddFT/SetFT` = `ftAdd/ftSet` (one `FormatDecimalForERC20`), `SubFT` = `ftSub` (`ForERC20` on the amount, `ForRocket` on
+    the returned remainder), `GetFT` = `ftGet`; `AddStake/AddMiner` debit `stakeToBigInt` (`Float64ToBigInt`),
+    `GetRefundStake` refunds `uint64ToBigInt`; STAKE/UNSTAKE read `stakeArg` (`ParseUint ∘ BigIntToStrWithoutDot`). -/
+def expectedConversions : List (String × List String) := [
+  ("src/executor/miner_executor.go:minerRefundExecutor.Execute", ["ParseUint"]),
+  ("src/service/game.go:transferBalance", ["StrToBigInt"]),
+  ("src/service/miner_manager.go:MinerManager.AddMiner", ["Float64ToBigInt"]),
+  ("src/service/miner_manager.go:MinerManager.AddStake", ["Float64ToBigInt"]),
+  ("src/service/refund_manager.go:RefundManager.GetRefundStake", ["Uint64ToBigInt"]),
+  ("src/storage/account/accountdb_tuntun.go:AccountDB.AddFT", ["FormatDecimalForERC20"]),
+  ("src/storage/account/accountdb_tuntun.go:AccountDB.GetFT", ["FormatDecimalForRocket"]),
+  ("src/storage/account/accountdb_tuntun.go:AccountDB.SetFT", ["FormatDecimalForERC20"]),
+  ("src/storage/account/accountdb_tuntun.go:AccountDB.SubFT", ["FormatDecimalForERC20", "FormatDecimalForRocket"]),
+  ("src/utility/data_convert.go:BigIntToStrWithoutDot", ["BigIntToStr"]),
+  ("src/utility/data_convert.go:FormatDecimalForERC20", ["BigIntToStr", "strToBigInt"]),
+  ("src/utility/data_convert.go:FormatDecimalForRocket", ["bigIntToStr", "StrToBigInt"]),
+  ("src/utility/data_convert.go:Uint64ToBigInt", ["SetUint64"]),
+  ("src/vm/instructions.go:opStake", ["ParseUint", "BigIntToStrWithoutDot"]),
+  ("src/vm/instructions.go:opUnStake", ["ParseUint", "BigIntToStrWithoutDot"]),
+  ("src/vm/instructions.go:opUnStakeAll", ["SetUint64"])
+]
+
+theorem conversions_as_modelled : LedgerFacts.conversions = expectedConversions := by decide
+
+/-- Every comparison of a `Cmp` / `Sign` result with a literal in the transcribed functions, next to the model line:
+    `SubFT` refuses on `remain.Cmp(value) < 0` (`subBal`: `slot < v`); `CanTransfer` is `Sign < 0 → false`, then
+    `Cmp >= 0` (`canTransfer`); `transferBalance` refuses `Sign == -1` and `Cmp == -1` (`amt < 0`, `get src < amt`);
+    `ProcessFee`, `AddStake`, `AddMiner`, `preCheckContractFee` refuse on `Cmp < 0`; the gas charge clamps on `Cmp < 0`
+    (`chargeGas`); `minerNodeExecutor` refuses on `ten.Cmp(balance) > 0` (`nodeTxWith`: `get src < fee`); `opUnStake`
+    adds the second refund entry on `real.Cmp(money) > 0` (`v < real`); `Call/AuthCall` skip the transfer on `Sign == 0`
+    (`v != 0`). A changed operator (`<` for `<=`, a dropped sign test) changes this list. -/
+def expectedCompares : List (String × List String) := [
+  ("src/core/vmexecutor.go:VMExecutor.Execute", []),
+  ("src/core/vmexecutor.go:VMExecutor.after", []),
+  ("src/core/vmexecutor.go:deductGasFee", ["Cmp<0"]),
+  ("src/executor/base_executor.go:baseFeeExecutor.BeforeExecute", []),
+  ("src/executor/contract_executor.go:contractExecutor.BeforeExecute", []),
+  ("src/executor/contract_executor.go:contractExecutor.Execute", ["Cmp<0"]),
+  ("src/executor/contract_executor.go:preCheckContractFee", ["Cmp<0"]),
+  ("src/executor/jsonrpc_executor.go:jsonrpcExecutor.BeforeExecute", []),
+  ("src/executor/miner_executor.go:minerAddExecutor.Execute", []),
+  ("src/executor/miner_executor.go:minerApplyExecutor.Execute", []),
+  ("src/executor/miner_executor.go:minerRefundExecutor.Execute", []),
+  ("src/executor/miner_node_executor.go:minerNodeExecutor.Execute", ["Cmp>0"]),
+  ("src/service/game.go:ChangeAssets", []),
+  ("src/service/game.go:transferBalance", ["Sign==-1", "Cmp==-1"]),
+  ("src/service/miner_manager.go:MinerManager.AddMiner", ["Cmp<0"]),
+  ("src/service/miner_manager.go:MinerManager.AddStake", ["Cmp<0"]),
+  ("src/service/miner_manager.go:MinerManager.RemoveMiner", []),
+  ("src/service/refund_manager.go:RefundManager.CheckAndMove", []),
+  ("src/service/refund_manager.go:RefundManager.GetRefundStake", []),
+  ("src/service/transaction_pool.go:TxPool.ProcessFee", ["Cmp<0"]),
+  ("src/storage/account/accountdb.go:AccountDB.Suicide", []),
+  ("src/storage/account/accountdb_tuntun.go:AccountDB.AddFT", []),
+  ("src/storage/account/accountdb_tuntun.go:AccountDB.GetFT", []),
+  ("src/storage/account/accountdb_tuntun.go:AccountDB.SetFT", []),
+  ("src/storage/account/accountdb_tuntun.go:AccountDB.SubFT", ["Cmp<0"]),
+  ("src/utility/data_convert.go:BigIntToStrWithoutDot", []),
+  ("src/utility/data_convert.go:FormatDecimalForERC20", ["Sign==0"]),
+  ("src/utility/data_convert.go:FormatDecimalForRocket", ["Sign==0"]),
+  ("src/utility/data_convert.go:Uint64ToBigInt", []),
+  ("src/vm/evm.go:EVM.AuthCall", ["Sign!=0", "Sign==0"]),
+  ("src/vm/evm.go:EVM.Call", ["Sign!=0", "Sign==0"]),
+  ("src/vm/evm.go:EVM.CallCode", []),
+  ("src/vm/evm.go:EVM.DelegateCall", []),
+  ("src/vm/evm.go:EVM.StaticCall", []),
+  ("src/vm/evm.go:EVM.create", []),
+  ("src/vm/init.go:CanTransfer", ["Sign<0", "Cmp>=0"]),
+  ("src/vm/init.go:Transfer", []),
+  ("src/vm/instructions.go:opStake", []),
+  ("src/vm/instructions.go:opSuicide", []),
+  ("src/vm/instructions.go:opUnStake", ["Cmp>0"]),
+  ("src/vm/instructions.go:opUnStakeAll", [])
+]
+
+theorem compares_as_modelled : LedgerFacts.compares = expectedCompares := by decide
+
 /-- The constants of the model are the constants of the source. -/
 theorem constants_match : LedgerFacts.consts = expectedConsts := by decide
 
